@@ -15,6 +15,7 @@ import (
 	"net"
 	"os"
 	"reflect"
+	"strconv"
 	"strings"
 	"sync/atomic"
 	"time"
@@ -118,7 +119,28 @@ func c03Proxy(args []string) int {
 		return 1
 	}
 	done := make(chan struct{}, 2)
-	go func() { io.Copy(c, os.Stdin); c.(interface{ CloseWrite() error }).CloseWrite(); done <- struct{}{} }()
+	delay := time.Duration(0)
+	if len(args) > 2 {
+		// a slow link: what arrives on stdin is forwarded only after a pause (as a bridge over a network would)
+		if ms, err := strconv.Atoi(args[2]); err == nil {
+			delay = time.Duration(ms) * time.Millisecond
+		}
+	}
+	go func() {
+		buf := make([]byte, 64<<10)
+		for {
+			n, err := os.Stdin.Read(buf)
+			if n > 0 {
+				time.Sleep(delay)
+				c.Write(buf[:n])
+			}
+			if err != nil {
+				break
+			}
+		}
+		c.(interface{ CloseWrite() error }).CloseWrite()
+		done <- struct{}{}
+	}()
 	go func() { io.Copy(os.Stdout, c); done <- struct{}{} }()
 	<-done
 	<-done
@@ -180,7 +202,7 @@ func c03tRun(in c03tInput) (msg, key string, infra bool, cases int) {
 		os.MkdirAll(c03tDir(), 0o755)
 		sockaddr = c03tDir() + "/" + tag[len(tag)-12:] + ".sock"
 		network, addr = "unix", "unix:"+sockaddr
-	case "abstract", "bridge":
+	case "abstract", "bridge", "bridge-slow":
 		sockaddr = "@" + tag
 		network, addr = "unix", "unix:@"+tag
 	case "tcp":
@@ -216,6 +238,8 @@ func c03tRun(in c03tInput) (msg, key string, infra bool, cases int) {
 	switch in.Transport {
 	case "bridge":
 		conn, err = varlink.NewBridgeWithStderr(fmt.Sprintf("exec %s -helper c03proxy %s %s", os.Args[0], network, sockaddr), io.Discard)
+	case "bridge-slow":
+		conn, err = varlink.NewBridgeWithStderr(fmt.Sprintf("exec %s -helper c03proxy %s %s 300", os.Args[0], network, sockaddr), io.Discard)
 	case "bridge-oneshot":
 		os.MkdirAll(c03tDir(), 0o755)
 		marker = c03tDir() + "/" + tag + ".exited"
@@ -336,6 +360,9 @@ func runC03T(tier string, r *Result) {
 			inputs = append(inputs, c03tInput{Transport: tr, Kind: "docs", Docs: docs[from:min(from+batch, len(docs))]})
 		}
 	}
+	// a bridge that forwards with a delay: a oneway call, then Close at once - what Send reported as written still arrives
+	inputs = append(inputs, c03tInput{Transport: "bridge-slow", Kind: "docs", Docs: []string{`{"i":1,"n":9007199254740993}`}},
+		c03tInput{Transport: "bridge-slow", Kind: "docs", Docs: []string{`{"a":1}`, `{"s":"` + strings.Repeat("z", 100000) + `"}`}})
 	pool := []string{`{"i":1}`, `{"n":9007199254740993}`, `{"s":"é\u0000"}`, `{}`, `<none>`}
 	var seqs [][]string
 	for _, a := range pool {
